@@ -123,6 +123,7 @@ func c17Witnesses() []c17Witness {
 			c17R("u1", "", "u3"), c17R("u4", "", ""), c17R("u2", "u5", ""), c17R("u3", "u5", ""), c17R("u5", "u4", "")}}},
 		{"F18-C17-star-callback-pulled-forward", c17Case{Pipeline: "create", Ops: []regOp{c17R("u3", "", "*"), c17R("u2", "", "u3"), c17R("u1", "", "")}}},
 		{"F19-C17-duplicate-star-records-reshuffled", c17Case{Pipeline: "create", Ops: []regOp{c17R("u1", "*", ""), c17R("u1", "", "*"), {Op: "replace", Name: "gorm:create"}}}},
+		{"F20-C17-stale-backlink-after-remove", c17Case{Pipeline: "create", Ops: []regOp{c17R("u2", "u1", ""), c17R("u1", "", ""), {Op: "remove", Name: "u2"}, c17R("u2", "", "*")}}},
 	}
 	for i := range w {
 		for j := range w[i].Case.Ops {
